@@ -80,7 +80,7 @@ def externs_for(unit):
     return args
 
 
-def run_verus(path, unit, extra=(), multiple_errors=8, timeout=1200):
+def run_verus(path, unit, extra=(), multiple_errors=60, timeout=1200):
     cmd = ["verus", path, "--output-json", "--time", "--multiple-errors", str(multiple_errors),
            "--error-format=json", "--triggers-mode", "silent"] + externs_for(unit) + list(extra)
     t0 = time.time()
